@@ -1,6 +1,6 @@
 """C19 — dry runs and query tools observe without disturbing, and tell the truth (DESIGN 5.19)."""
 from facts import AnalysisBroken, load_fixture_facts
-from model import (Program, dstr, strip, fact_holds, mentions_field, mentions_call, mentions_var,
+from model import (norm_cond, Program, dstr, strip, fact_holds, mentions_field, mentions_call, mentions_var,
                    mentions_enum, const_value, walk)
 from rules import (guarded, calls_to, field_writes, who_may_call, full_range, loops_over,
                    every_iteration_passes, basename, origins, is_var, is_enum, lastname,
@@ -189,7 +189,21 @@ def run(ctx):
         guarded(ctx, 'C19.EF2', f2, e2, lambda a: mentions_field(a, 'BuildConfig::dry_run'), False,
                 'the console is locked only outside a dry run', construct='console-locked-under-dry-run')
     ctx.check('C19.EF2', nlock >= 1, 'LinePrinter::SetConsoleLocked', 'console-lock:sites', 'src/status_printer.cc', '%d lock site(s)' % nlock)
-    ctx.floor('C19.EF2', 14)
+    # -n on the command line is final: the flag is only ever set, never stored from something that may be false
+    # (a copy of the configuration with dry_run overwritten runs for real what the user asked to be listed)
+    nset = 0
+    for f3, e3, kind, rhs in field_writes(prog, 'BuildConfig::dry_run'):
+        if e3.get('init') or f3.name.startswith('BuildConfig::BuildConfig'):
+            continue
+        nset += 1
+        ok = kind == '|=' or (kind == '=' and const_value(rhs) == 1)
+        if not ok and kind == '=' and rhs is not None:
+            ra, rp = norm_cond(prog, rhs)
+            ok = any(k3 == dstr(ra) and fp == rp for k3, (fp, fa) in f3.facts_at(e3).items())      # `if (x) c.dry_run = x;`
+        ctx.check('C19.EF2', ok, f3.name, 'dry_run:may-be-cleared', f3.where(e3),
+                  'BuildConfig::dry_run is only ever set (`= true`, `|=`, or a store of a value known true there): `%s`' % (e3.get('src') or '')[:60])
+    ctx.check('C19.EF2', nset >= 1, 'BuildConfig::dry_run', 'dry_run:writers', 'src/ninja.cc', '%d store(s) of the dry-run flag' % nset)
+    ctx.floor('C19.EF2', 16)
 
     # ---- O1: dependency order of -t commands ------------------------------------------------------
     R('C19.O1', 'O', 'command listings print a statement\'s command only after the commands of '
